@@ -644,6 +644,17 @@ func (w *World) consumerAV(x ssa.Value, seen map[ssa.Value]bool) AV {
 		return w.consumerAV(y.X, seen)
 	case *ssa.Convert:
 		return w.consumerAV(y.X, seen)
+	case *ssa.Call:
+		// the result of a helper of package ast (wrapNode(node) in sqlOpt): what its returns can be
+		if callee := y.Call.StaticCallee(); callee != nil && callee.Blocks != nil && fnPkgPath(callee) == modRoot+"/ast" && callee.Signature.Results().Len() == 1 {
+			acc := avBot()
+			for _, b := range callee.Blocks {
+				if ret, ok := b.Instrs[len(b.Instrs)-1].(*ssa.Return); ok && len(ret.Results) == 1 {
+					acc = avJoin(acc, w.consumerAV(ret.Results[0], seen))
+				}
+			}
+			return acc
+		}
 	case *ssa.Extract:
 		if ta, ok := y.Tuple.(*ssa.TypeAssert); ok && y.Index == 0 {
 			a := w.consumerAV(ta.X, seen)
